@@ -9,6 +9,8 @@ extern "Rust" {
     fn fi_verif_replay_event(name: &str, cfg: u32, p: u32, s: &mut common::ScriptSrc<'_>) -> bool;
     fn fi_verif_replay_oneshot(name: &str, cfg: u32, p: u32, s: &mut common::ScriptSrc<'_>) -> bool;
     fn fi_verif_replay_oneshot_bc(name: &str, cfg: u32, p: u32, s: &mut common::ScriptSrc<'_>) -> bool;
+    fn fi_verif_replay_state(name: &str, cfg: u32, p: u32, s: &mut common::ScriptSrc<'_>) -> bool;
+    fn fi_verif_replay_timer(name: &str, cfg: u32, p: u32, s: &mut common::ScriptSrc<'_>) -> bool;
 }
 
 fn replay_dispatch(name: &str, cfg: u32, p: u32, s: &mut common::ScriptSrc<'_>) -> bool {
@@ -19,6 +21,8 @@ fn replay_dispatch(name: &str, cfg: u32, p: u32, s: &mut common::ScriptSrc<'_>) 
             || fi_verif_replay_event(name, cfg, p, s)
             || fi_verif_replay_oneshot(name, cfg, p, s)
             || fi_verif_replay_oneshot_bc(name, cfg, p, s)
+            || fi_verif_replay_state(name, cfg, p, s)
+            || fi_verif_replay_timer(name, cfg, p, s)
             || life::replay(name, cfg, p, s)
     }
 }
